@@ -307,7 +307,7 @@ func genLen(t *rapid.T, thr int, id int32, allowHuge bool) int {
 	default:
 		n = rapid.IntRange(0, 70000).Draw(t, "len")
 	}
-	if allowHuge && rapid.IntRange(0, 400).Draw(t, "huge") == 0 {
+	if allowHuge && rapid.IntRange(0, 400).Draw(t, "huge") == 237 {
 		n = rapid.SampledFrom([]int{frame.MaxData - il, frame.MaxData - il - 1, 2097151 - il + rapid.IntRange(-2, 0).Draw(t, "hj"), 1 << 20}).Draw(t, "hugelen")
 	}
 	if n < 0 {
